@@ -20,6 +20,54 @@ def _norm_construct(s: str) -> str:
     return re.sub(r"\s+", " ", s).strip()
 
 
+# Keys of findings must not depend on how local variables are spelled (a rename is not a new finding): the cli
+# registers the index, and the local names of the reported function are replaced by $1, $2, … in order of appearance.
+_INDEX = None
+_LOCALS_CACHE: Dict[str, Any] = {}
+_IDENT = re.compile(r"(?<![\.\w])([A-Za-z_]\w*)\b(?!=(?!=))")  # not attributes, not `keyword=` of a call
+
+
+def set_index(idx) -> None:
+    global _INDEX
+    _INDEX = idx
+    _LOCALS_CACHE.clear()
+
+
+def locals_of(function: str):
+    if _INDEX is None or not function:
+        return frozenset()
+    if function not in _LOCALS_CACHE:
+        names = frozenset()
+        f = getattr(_INDEX, "funcs", {}).get(function)
+        if f is not None:
+            from .alpha import renamable
+
+            try:
+                names = frozenset(renamable(f.node))
+            except Exception:
+                names = frozenset()
+        _LOCALS_CACHE[function] = names
+    return _LOCALS_CACHE[function]
+
+
+def canonical_construct(s: str, function: str) -> str:
+    s = _norm_construct(s)
+    names = locals_of(function)
+    if not names:
+        return s
+    order: Dict[str, str] = {}
+
+    def sub(m):
+        w = m.group(1)
+        if w not in names:
+            return w
+        if w not in order:
+            order[w] = f"${len(order) + 1}"
+        return order[w]
+
+    return _IDENT.sub(sub, s)
+
+
 @dataclass
 class Obligation:
     rule: str  # e.g. "C03.1 T5 definite-assignment"
@@ -33,7 +81,7 @@ class Obligation:
     inconclusive: bool = False
 
     def key(self) -> Dict[str, str]:
-        return {"rule": self.rule, "function": self.function or self.instance, "construct": _norm_construct(self.construct)}
+        return {"rule": self.rule, "function": self.function or self.instance, "construct": canonical_construct(self.construct, self.function)}
 
     def to_json(self) -> Dict[str, Any]:
         d = {
@@ -116,10 +164,16 @@ def load_exceptions() -> List[Dict[str, str]]:
         return json.load(fh)["exceptions"]
 
 
-def is_excepted(prop: str, rule: str, function: str, symbol: str) -> Optional[str]:
+def is_excepted(prop: str, rule: str, function: str, symbol: str, binding: Optional[str] = None) -> Optional[str]:
+    """`symbol` is a field / table name; for a local variable the exception is stated on its `binding` (the canonical
+    text of the statement that binds it, the variable itself written @), so that it survives a rename."""
     for e in load_exceptions():
-        if e["property"] == prop and rule.startswith(e["rule"]) and e["function"] == function and e["symbol"] == symbol:
-            return e["reason"]
+        if e["property"] == prop and rule.startswith(e["rule"]) and e["function"] == function:
+            if "binding" in e:
+                if binding is not None and e["binding"] == binding:
+                    return e["reason"]
+            elif e.get("symbol") == symbol:
+                return e["reason"]
     return None
 
 
